@@ -35,6 +35,11 @@ type Message struct {
 
 	// tracks which fields were set
 	fieldsMap map[int]struct{}
+
+	// the data element at which the last Unpack failed (0: none). It is not
+	// set but keeps what it decoded, so that the partial message stays
+	// readable; the next Unpack re-creates it
+	failedID int
 }
 
 func NewMessage(spec *MessageSpec) *Message {
@@ -267,6 +272,12 @@ func (m *Message) unpack(src []byte) (string, error) {
 		}
 	}
 	m.fieldsMap = map[int]struct{}{}
+	if m.failedID != 0 {
+		if fieldSpec, ok := m.GetSpec().Fields[m.failedID]; ok {
+			m.fields[m.failedID] = createMessageField(fieldSpec)
+		}
+		m.failedID = 0
+	}
 
 	// This method implicitly also sets m.fieldsMap[bitmapIdx]
 	m.bitmap().Reset()
@@ -306,6 +317,7 @@ func (m *Message) unpack(src []byte) (string, error) {
 
 			read, err = fl.Unpack(src[off:])
 			if err != nil {
+				m.failedID = i
 				return strconv.Itoa(i), fmt.Errorf("failed to unpack field %d (%s): %w", i, fl.Spec().Description, err)
 			}
 
